@@ -1046,7 +1046,7 @@ class ExprMixin(ExecBase):
             ftext = ast.unparse(e.value.func)
             import fnmatch
             for h in self.c.hooks:
-                if h[0] == "after-await" and fnmatch.fnmatchcase(ftext, h[1]):
+                if h[0] == "after-await" and any(fnmatch.fnmatchcase(t, h[1]) for t in self.call_texts(ftext)):
                     for s, _ in res:
                         self.run_hook(s, h, e)
         return res
